@@ -102,7 +102,9 @@ def hdr_tok(h):
 def gen_episode(rng, n, strategy=None, stream_share=0.08):
     ids = rng.choice(["11", "11", "10", "01", "00"])
     base = rng.choice(["-", "-", "-", "/base", "/api/v1", "/base/"])
-    ep = ["px new %s %s %s" % (strategy or rng.choice(STRATS), ids, base)]
+    # features that must not change what travels (thresholds no episode reaches)
+    feats = "".join(f for f in "crpl" if rng.random() < 0.45) or "-"
+    ep = ["px new %s %s %s %s" % (strategy or rng.choice(STRATS), ids, base, feats)]
     for _ in range(n):
         method = rng.choice(METHODS)
         target = rng.choice(TARGETS)
@@ -125,6 +127,9 @@ def gen_episode(rng, n, strategy=None, stream_share=0.08):
         script = ";".join(gen_script(rng, method, stream=rng.random() < stream_share))
         for mode in ("direct", "via"):
             ep.append("px x %s %s %s %s %d %s %s" % (mode, method, target, hdr_tok(h), reqlen, framing, script))
+    if rng.random() < 0.35:
+        # exchanges in flight together: each client must read exactly the body written for it
+        ep.append("px conc %d %d" % (rng.choice([4, 8, 12]), rng.choice([70000, 300000, 1 << 20])))
     ep.append("px close")
     return ep
 
@@ -153,6 +158,9 @@ def oracle(ep, outs):
     lines = C.op_lines(ep)
     ids = lines[0].split()[3]
     names = {"X-Request-Id": ids[0] == "1", "X-Trace-Id": ids[1] == "1"}
+    for l, o in zip(lines, outs):
+        if l.startswith("px conc") and o != "conc ok %s" % l.split()[2]:
+            fails.append("concurrent exchanges interfere: %s (%s)" % (o, l))
     i = 1
     while i + 1 < len(lines):
         ld, lv = lines[i], lines[i + 1]
